@@ -74,8 +74,15 @@ partial def readNode (w : World ByteArray) : Node ByteArray → Option Bytes
       | some a, some b => some (a ++ nm ++ str "=" ++ b ++ str ";")
       | _, _ => none) (some [])
 
-def splitSpace (b : Bytes) : List Bytes :=
-  (Path.splitSlash (b.map fun x => if x == 0x20 then 0x2F else x)).filter (fun x => !x.isEmpty)
+def splitOnByte (sep : UInt8) : Bytes → List Bytes
+  | [] => [[]]
+  | b :: r =>
+    if b == sep then [] :: splitOnByte sep r
+    else match splitOnByte sep r with
+      | [] => [[b]]
+      | x :: xs => (b :: x) :: xs
+
+def splitSpace (b : Bytes) : List Bytes := (splitOnByte 0x20 b).filter (fun x => !x.isEmpty)
 
 /-- `vcmd <id> <out>… -- <in>…` -/
 def execCmd : Exec ByteArray := fun stg w =>
@@ -282,6 +289,10 @@ def applyOp (toks : List String) (w : World ByteArray) : Except Err (World ByteA
     (match objs[n.toNat! % (max objs.length 1)]? with
      | some (d, _) => (.ok { w with store := w.store.filter (·.1 != d) }, #[s!"x {d}"])
      | none => (.error .other, #[]))
+  | ["setcmd", sp, cmd] =>
+    (match alookup w.idx (unhex sp) with
+     | some stg => .ok { w with idx := setStage w.idx (unhex sp) { stg with cmd := unhex cmd } }
+     | none => .error .unknownStage, #[])
   | ["moveproj", mode] =>
     -- links are relative: with a cache outside the project, moving it to another depth breaks them
     if mode == "rel" then (.ok w, #[]) else
